@@ -162,7 +162,7 @@ type valGen struct {
 var intPool = func() []int64 {
 	out := []int64{0, 1, -1, 127, 128, -128, -129, 255, 256, 32767, 32768, -32768, -32769}
 	for k := uint(8); k < 63; k += 1 {
-		out = append(out, 1<<k, 1<<k-1, 1<<k+1, -(1 << k), -(1 << k) - 1, -(1 << k) + 1)
+		out = append(out, 1<<k, 1<<k-1, 1<<k+1, -(1 << k), -(1<<k)-1, -(1<<k)+1)
 	}
 	out = append(out, 1<<63-1, -1<<63, -1<<63+1)
 	return out
